@@ -246,6 +246,25 @@ def clause_imeta_verbatim(prog, rep):
                   "validator) is read back differently, the receiver derives another key and decryption fails" % ", ".join(sorted(set(bad))), f.loc())
 
 
+def clause_epoch_hint_key(prog, rep):
+    """the epoch under which a file's key was derived is recovered from the announcing message; the lookup key must identify *that
+    upload*: the nonce is unique per upload, the content hash is shared by every re-upload of the same file (whose keys come from other
+    epochs), so a lookup by hash alone can return another upload's epoch"""
+    n = 0
+    for f in prog.nontest_fns(("mdk_core",)):
+        if "encrypted_media" not in f.path:
+            continue
+        for c in f.live_calls():
+            if K.is_storage_trait_call(c, "find_message_epoch_by_tag_content") and c.args and "p" in c.args[-1]:
+                n += 1
+                og = A.origins(prog, f, c.args[-1]["p"][0], scope=None, max_frames=0)
+                rep.check("nonce" in og.fields, "hash-after-decrypt", "epoch-hint/lookup-key-identifies-upload",
+                          "the epoch hint is looked up by a value unique to the upload (fields: %s)" % sorted(x for x in og.fields if x in ("nonce", "original_hash", "filename", "url")),
+                          "the epoch hint is looked up by %s only: the same file shared in two epochs has one hash but two keys, so one of the "
+                          "uploads is decrypted with the other's epoch and fails for good" % sorted(x for x in og.fields if x in ("original_hash", "filename", "url", "mime_type")), c.loc())
+    rep.floor("hash-after-decrypt", "epoch hint lookups", n, 1)
+
+
 def clause_hash_check(prog, rep):
     """the decrypted bytes are returned only after their hash was compared with the announced one"""
     core = K.core_scope(prog)
@@ -401,6 +420,7 @@ def run(ctx, rep):
     if prog.find(name="encrypt_data_with_aad", crate="mdk_core"):
         clause_binding_agreement(prog, rep)
         clause_imeta_verbatim(prog, rep)
+        clause_epoch_hint_key(prog, rep)
     clause_hash_check(prog, rep)
     clause_group_image(prog, rep)
     # C17.4 shares C02's clause
